@@ -192,6 +192,9 @@ def normalise_module(relpath: str, tree: ast.Module) -> list[str]:
         from .inline import inline_new_helpers
 
         notes += [f"{relpath}: {n}" for n in inline_new_helpers(tree, set(known))]
+    from .canon import canonicalise
+
+    canonicalise(tree)
     for cls_name, node in _functions(tree):
         key = f"{cls_name}.{node.name}" if cls_name else node.name
         b = base.get(key)
@@ -224,6 +227,9 @@ def generate(root: str) -> dict[str, T.Any]:
             p = os.path.join(dirpath, fn)
             rel = os.path.relpath(p, root)
             tree = ast.parse(open(p, encoding="utf-8").read())
+            from .canon import canonicalise
+
+            canonicalise(tree)
             entry: dict[str, T.Any] = {}
             names = []
             for cls_name, node in _functions(tree):
